@@ -15,7 +15,7 @@ from collections import Counter
 import vlib
 
 THEOREMS = [
-    "rank_matches_source", "rank_is_position", "derives_match_source", "type_order_matches_source",
+    "rank_matches_source", "rank_is_position", "derives_match_source", "type_order_matches_source", "interval_fields_match_source",
     "cmp_refl", "cmp_antisymm", "cmp_trans", "cmp_total", "cmp_eq_iff_eq", "cmp_congr",
     "eq_refl", "eq_symm", "eq_trans", "eq_hash",
     "cross_type_cmp", "int32_int64_differ", "null_least",
